@@ -306,6 +306,7 @@ def run(ctx):
     included_needs_includer(ctx)
     store_and_split_namespace(ctx)
     locations_differing_in_case(ctx)
+    unresolved_imports_and_earlier_loads(ctx)
     same_namespace_two_documents(ctx)
     wsdl_then_xsd_imports(ctx)
     same_name_element_and_type(ctx)
@@ -578,6 +579,67 @@ def locations_differing_in_case(ctx):
                     ctx.fail("a warm cache still goes to the transport", meta, tr.opened, [])
         finally:
             shutil.rmtree(d, ignore_errors=True)
+
+
+def unresolved_imports_and_earlier_loads(ctx):
+    """(a) an xsd:import that names only a namespace nobody supplies a document for resolves to nothing - the imports
+    written after it are processed all the same; (b) what one load fetched for a namespace is that load's business: a
+    later load (another WSDL, another transport) whose schema imports the namespace without a location fetches only
+    what its own documents name."""
+    XS = "http://www.w3.org/2001/XMLSchema"
+
+    def wsdl(imports, ftype="y:T"):
+        return ('<?xml version="1.0"?><wsdl:definitions targetNamespace="urn:w" xmlns:wsdl="%s" xmlns:w="urn:w" '
+                'xmlns:t="urn:t" xmlns:y="urn:y" xmlns:soap="%s"><wsdl:types><xsd:schema xmlns:xsd="%s" targetNamespace="urn:t" '
+                'elementFormDefault="qualified">%s<xsd:element name="f" type="%s"/></xsd:schema></wsdl:types>'
+                '<wsdl:message name="fIn"><wsdl:part name="p" element="t:f"/></wsdl:message><wsdl:portType name="PT">'
+                '<wsdl:operation name="f"><wsdl:input message="w:fIn"/></wsdl:operation></wsdl:portType>'
+                '<wsdl:binding name="B" type="w:PT"><soap:binding style="document" '
+                'transport="http://schemas.xmlsoap.org/soap/http"/><wsdl:operation name="f"><soap:operation '
+                'soapAction="f"/><wsdl:input><soap:body use="literal"/></wsdl:input></wsdl:operation></wsdl:binding>'
+                '<wsdl:service name="S"><wsdl:port name="P" binding="w:B"><soap:address location="http://x.invalid/"/>'
+                '</wsdl:port></wsdl:service></wsdl:definitions>' % (IF.WSDLNS, IF.SOAPNS, XS, imports, ftype)).encode()
+
+    def xsd(ns, tname, extra=""):
+        return ('<xsd:schema xmlns:xsd="%s" targetNamespace="%s" elementFormDefault="qualified">%s<xsd:complexType name="%s">'
+                '<xsd:sequence><xsd:element name="v" type="xsd:int"/></xsd:sequence></xsd:complexType></xsd:schema>'
+                % (XS, ns, extra, tname)).encode()
+    nothing = '<xsd:import namespace="urn:ext:nobody"/>'
+    located = '<xsd:import namespace="urn:y" schemaLocation="http://docs.invalid/g/y.xsd"/>'
+    for label, imports in (("unresolved-first", nothing + located), ("unresolved-last", located + nothing),
+                           ("unresolved-between", nothing + located + nothing)):
+        net = {"http://docs.invalid/g/root.wsdl": wsdl(imports), "http://docs.invalid/g/y.xsd": xsd("urn:y", "T")}
+        meta = {"stream": "unresolved-imports", "order": label}
+        ctx.case(common.canon(meta), True)
+        client, err, store, tr = load("http://docs.invalid/g/root.wsdl", {}, net)
+        try:
+            got = [err, sorted(set(tr.opened)), [k for k, _v in client.factory.create("{urn:y}T")] if client else None]
+        except Exception as e:
+            got = [err, sorted(set(tr.opened)), "%s: %s" % (type(e).__name__, e)]
+        if got != [None, sorted(net), ["v"]]:
+            ctx.fail("an import that resolves to nothing kept the imports after it from being processed", meta, got,
+                     [None, sorted(net), ["v"]])
+    # (b) two loads, one after the other, in this process
+    net1 = {"http://docs.invalid/one/root.wsdl": wsdl('<xsd:import namespace="urn:y" schemaLocation="http://docs.invalid/one/y.xsd"/>'),
+            "http://docs.invalid/one/y.xsd": xsd("urn:y", "T")}
+    net2 = {"http://docs.invalid/two/root.wsdl": wsdl('<xsd:import namespace="urn:z" schemaLocation="http://docs.invalid/two/z.xsd"/>',
+                                                       "z:Z").replace(b'xmlns:y="urn:y"', b'xmlns:z="urn:z"'),
+            "http://docs.invalid/two/z.xsd": xsd("urn:z", "Z", '<xsd:import namespace="urn:y"/>')}
+    meta = {"stream": "earlier-loads"}
+    ctx.case(common.canon(meta), True)
+    c1, err1, _s1, tr1 = load("http://docs.invalid/one/root.wsdl", {}, net1)
+    c2, err2, _s2, tr2 = load("http://docs.invalid/two/root.wsdl", {}, net2)
+    types2 = None
+    if c2 is not None:
+        try:
+            c2.factory.create("{urn:y}T")
+            types2 = "urn:y types present"
+        except Exception as e:
+            types2 = type(e).__name__
+    got = [err1, err2, sorted(set(tr2.opened)), types2]
+    want = [None, None, sorted(net2), "TypeNotFound"]
+    if got != want:
+        ctx.fail("a load fetched (or used) a document that only an earlier load of this process had named", meta, got, want)
 
 
 def same_name_element_and_type(ctx):
